@@ -164,7 +164,9 @@ def ctor_expected(name, args):
         if loop is not None:
             dontcare.add(3)
     elif name == 'pairs':
-        pts = sorted(a['pairs'], key=lambda p: p[0])   # stable
+        # "sorted regarding their point in time": a stable sort on the time
+        # alone - points sharing a time (a vertical jump) keep input order
+        pts = sorted(a['pairs'], key=lambda p: p[0])
         cv = a.get('curves')
         if cv is None:
             per_point = ['lin'] * len(pts)
@@ -180,7 +182,7 @@ def ctor_expected(name, args):
         rel = None
         offset = pts[0][0]
     elif name == 'xyc':
-        pts = sorted(a['xyc'], key=lambda p: p[0])
+        pts = sorted(a['xyc'], key=lambda p: p[0])   # stable, time only
         levels = [p[1] for p in pts]
         times = [pts[i + 1][0] - pts[i][0] for i in range(len(pts) - 1)]
         curves = [p[2] for p in pts][:-1]
@@ -358,6 +360,12 @@ def selftest():
                                       [3, 0, 'hold']]})
     assert e['levels'] == [0, 1, 0] and e['times'] == [0.5, 2]
     assert e['curves'] == ['sin', -4] and e['offset'] == 0.5
+    # equal times keep their input order (vertical jump 1 -> 0.25 at t = 1)
+    e = ctor_expected('pairs', {'pairs': [[0, 0], [1, 1], [1, 0.25], [2, 0]]})
+    assert e['levels'] == [0, 1, 0.25, 0] and e['times'] == [1, 0, 1]
+    e = ctor_expected('xyc', {'xyc': [[1, 1, 'sin'], [0, 0, 'lin'],
+                                      [1, 0.25, -4], [2, 0, 'lin']]})
+    assert e['levels'] == [0, 1, 0.25, 0] and e['curves'] == ['lin', 'sin', -4]
     # evaluation demands
     L, T = [0, 1, 0], [1, 2]
     assert demand(L, T, 'lin', -0.25) == ('any',)
